@@ -152,7 +152,12 @@ func searchIndex(p *binary.BinaryProtocol, idx int, elementWireType proto.WireTy
 		more := true // is there an element number cnt at the cursor?
 		if idx == 0 {
 			// found: hand the cursor back at the element's tag, like for every other index
-			p.Read -= protowire.SizeVarint(uint64(fieldNumber)<<3 | uint64(elementWireType&7))
+			n := protowire.SizeVarint(uint64(fieldNumber)<<3 | uint64(elementWireType&7))
+			if p.Read < n {
+				// the bytes before the cursor are too few to be this field's tag
+				return 0, errNode(meta.ErrRead, "searchIndex: the list does not start with its field tag.", nil)
+			}
+			p.Read -= n
 		}
 		for p.Read < len(p.Buf) && cnt < idx {
 			// don't move p.Read and judge whether readList completely
